@@ -242,6 +242,9 @@ func ParseSliceHeader(nalu []byte, spsMap map[uint32]*SPS, ppsMap map[uint32]*PP
 					if lt.DeltaPocMsbPresentFlag {
 						lt.DeltaPocMsbCycleLt = r.ReadExpGolomb()
 					}
+					if r.AccError() != nil {
+						return sh, r.AccError()
+					}
 					sh.LongTermRefPicSets = append(sh.LongTermRefPicSets, lt)
 				}
 			}
@@ -354,9 +357,12 @@ func ParseSliceHeader(nalu []byte, spsMap map[uint32]*SPS, ppsMap map[uint32]*PP
 			// value shall be in the range of 0 to 31, inclusive
 			sh.OffsetLenMinus1 = uint8(r.ReadExpGolomb())
 			if sh.NumEntryPointOffsets > 0 {
-				sh.EntryPointOffsetMinus1 = make([]uint32, sh.NumEntryPointOffsets)
 				for i := uint(0); i < sh.NumEntryPointOffsets; i++ {
-					sh.EntryPointOffsetMinus1[i] = uint32(r.Read(int(sh.OffsetLenMinus1 + 1)))
+					offset := uint32(r.Read(int(sh.OffsetLenMinus1 + 1)))
+					if r.AccError() != nil {
+						return sh, r.AccError()
+					}
+					sh.EntryPointOffsetMinus1 = append(sh.EntryPointOffsetMinus1, offset)
 				}
 			}
 		}
